@@ -681,14 +681,17 @@ Section Generator.
   Hypothesis f_neg : forall v, f (neg4 v) = neg4 (f v).
   Hypothesis f_norm : forall q q', In q (hcp_candidates both v0) -> In q' (hcp_candidates both v0) ->
                                    dot4 (f q) (f q) = dot4 (f q') (f q').
-  Let out := dedup same (map f (hcp_candidates both v0)).
+  (* the candidates, in any order *)
+  Variable cands : list V4.
+  Hypothesis cands_iff : forall w, In w cands <-> In w (hcp_candidates both v0).
+  Let out := dedup same (map f cands).
 
   Lemma gen_member y : In y out -> exists q, In q (hcp_candidates both v0) /\ y = f q.
-  Proof. intros H. apply dedup_sub in H. apply in_map_iff in H as (q & <- & Hq). eauto. Qed.
+  Proof. intros H. apply dedup_sub in H. apply in_map_iff in H as (q & <- & Hq). apply cands_iff in Hq. eauto. Qed.
   Lemma gen_cover q : In q (hcp_candidates both v0) -> exists y, In y out /\ eq_pm4 y (f q).
   Proof.
-    intros Hq. destruct (dedup_cover same (map f (hcp_candidates both v0)) (f q)) as (y & Hy & E).
-    { now apply in_map. }
+    intros Hq. destruct (dedup_cover same (map f cands) (f q)) as (y & Hy & E).
+    { apply in_map. now apply cands_iff. }
     exists y. split; auto. destruct E as [-> | E]; [left; reflexivity|].
     apply eq_pm4_sym. apply same_inv; auto.
     apply gen_member in Hy as (q' & Hq' & ->). now apply f_norm.
@@ -722,6 +725,20 @@ Qed.
 Lemma dot4_reduce_zero p b : dot4 p b = 0 <-> dot4 (reduce4 p) b = 0.
 Proof. rewrite (reduce4_scale p) at 1. rewrite dot4_scale_l. pose proof (gfac4_pos p). nia. Qed.
 
+Lemma plane_cands_iff both v w : In w (hcp_plane_candidates both v) <-> In w (hcp_candidates both v).
+Proof.
+  d4 v. unfold hcp_plane_candidates. rewrite in_app_iff.
+  assert (E : In w (if both && negb (d =? 0) then hcp_candidates false (a, b, c, - d) else [])
+              <-> (both = true /\ d <> 0 /\ In w (hcp_candidates false (a, b, c, - d)))).
+  { destruct both; cbn [andb]; [destruct (Z.eqb_spec d 0); cbn [negb]|]; cbn [In];
+      intuition (try discriminate; try lia). }
+  rewrite E, !cand_iff. cbn [first3 last1].
+  destruct (Z.eq_dec d 0); intuition (try discriminate; try lia).
+Qed.
+Lemma burgers_norm b0 q q' :
+  In q (hcp_candidates true b0) -> In q' (hcp_candidates true b0) -> dot4 (id q) (id q) = dot4 (id q') (id q').
+Proof. intros H1 H2. unfold id. rewrite (cand_norm _ _ _ H1), (cand_norm _ _ _ H2). reflexivity. Qed.
+
 Section HCPFamily.
   Variable both : bool.
   Variables b0 p0 : V4.
@@ -743,13 +760,12 @@ Section HCPFamily.
   Lemma hcp_burgers_cover q : In q (hcp_candidates true b0) -> exists y, In y (hcp_burgers b0) /\ eq_pm4 y q.
   Proof.
     intros Hq. unfold hcp_burgers. rewrite <- (map_id (hcp_candidates true b0)).
-    apply (gen_cover burgers_same id true b0 burgers_same_inv); auto.
-    intros q1 q2 H1 H2. unfold id. rewrite (cand_norm _ _ _ H1), (cand_norm _ _ _ H2). reflexivity.
+    exact (gen_cover burgers_same id true b0 burgers_same_inv (burgers_norm b0) _ (fun w => iff_refl _) q Hq).
   Qed.
   Lemma hcp_planes_cover q : In q (hcp_candidates both p0) -> exists y, In y (hcp_planes both p0) /\ eq_pm4 y (reduce4 q).
   Proof.
     intros Hq. unfold hcp_planes.
-    apply (gen_cover plane_same reduce4 both p0 plane_same_inv); auto. apply cand_reduce_norm.
+    exact (gen_cover plane_same reduce4 both p0 plane_same_inv (cand_reduce_norm both p0) _ (plane_cands_iff both p0) q Hq).
   Qed.
 
   Lemma hcp_contains_family : dot4 p0 b0 = 0 -> contains eq_pm4 L (b0, reduce4 p0).
@@ -766,7 +782,7 @@ Section HCPFamily.
     intros [b p] H. apply in_select in H as (Hp & Hb & _). simpl. split.
     - unfold hcp_burgers in Hb. apply dedup_sub in Hb. now apply (cand_member true).
     - unfold hcp_planes in Hp. apply dedup_sub in Hp. apply in_map_iff in Hp as (q & <- & Hq).
-      apply (cand_member both) in Hq as (g & Hg & ->). exists g. split; auto. apply reduce4_act.
+      apply plane_cands_iff in Hq. apply (cand_member both) in Hq as (g & Hg & ->). exists g. split; auto. apply reduce4_act.
   Qed.
 
   Lemma hcp_closed : both = true -> closed_under eq_pm4 hex_act hex_codes L.
@@ -774,12 +790,12 @@ Section HCPFamily.
     intros Hboth [b p] g H _. apply in_select in H as (Hp & Hb & H0). simpl.
     assert (Eb : exists b', In b' (hcp_burgers b0) /\ eq_pm4 b' (hex_act g b)).
     { unfold hcp_burgers in *. rewrite <- (map_id (hcp_candidates true b0)) in *.
-      apply (gen_closed burgers_same id true b0 burgers_same_inv); auto.
-      intros q1 q2 H1 H2. unfold id. rewrite (cand_norm _ _ _ H1), (cand_norm _ _ _ H2). reflexivity. }
+      exact (gen_closed burgers_same id true b0 burgers_same_inv (fun _ _ => eq_refl) (fun _ => eq_refl)
+                        (burgers_norm b0) _ (fun w => iff_refl _) b g eq_refl Hb). }
     assert (Ep : exists p', In p' (hcp_planes both p0) /\ eq_pm4 p' (hex_act g p)).
     { unfold hcp_planes in *.
-      apply (gen_closed plane_same reduce4 both p0 plane_same_inv reduce4_act reduce4_neg); auto.
-      apply cand_reduce_norm. }
+      exact (gen_closed plane_same reduce4 both p0 plane_same_inv reduce4_act reduce4_neg
+                        (cand_reduce_norm both p0) _ (plane_cands_iff both p0) p g Hboth Hp). }
     destruct Eb as (b' & Hb' & Eb). destruct Ep as (p' & Hp' & Ep).
     exists (b', p'). split; [|split; auto].
     apply in_select. repeat split; auto.
@@ -845,8 +861,8 @@ Lemma hcp_burgers_closed b0 b g :
   In b (hcp_burgers b0) -> In g hex_codes -> exists b', In b' (hcp_burgers b0) /\ eq_pm4 b' (hex_act g b).
 Proof.
   intros Hb _. unfold hcp_burgers in *. rewrite <- (map_id (hcp_candidates true b0)) in *.
-  apply (gen_closed burgers_same id true b0 burgers_same_inv); auto.
-  intros q1 q2 H1 H2. unfold id. rewrite (cand_norm _ _ _ H1), (cand_norm _ _ _ H2). reflexivity.
+  exact (gen_closed burgers_same id true b0 burgers_same_inv (fun _ _ => eq_refl) (fun _ => eq_refl)
+                    (burgers_norm b0) _ (fun w => iff_refl _) b g eq_refl Hb).
 Qed.
 Lemma hcp_error_iff both b0 p0 : hcp_systems both b0 p0 = None <-> dot4 b0 p0 <> 0.
 Proof.
